@@ -27,6 +27,21 @@ func checkDirectSign(t *rapid.T, key *bitcoin.SchnorrPrivateKey, aux, msg, want 
 	if bitcoin.VerifVerifySchnorrSelf(key.VerifSchnorrSigningScalar(), key.PublicKey().Bytes(), msg, bad) {
 		t.Fatal("self-verification accepts a corrupted signature")
 	}
+	// the twin made with the nonce whose R has odd y, not negated: x(R) and s fit together, BIP-340 Verify (the last
+	// step of BIP-340 Sign) refuses it
+	d := lib.ScInt(key.VerifSchnorrSigningScalar())
+	k := ref.Mod(ref.Int(sig[32:]), ref.N)
+	if k.Sign() == 0 {
+		return
+	}
+	if ref.BaseMul(k).Y.Bit(0) == 0 {
+		k = ref.NegM(k, ref.N)
+	}
+	odd := ref.BIP340SignWithNonce(d, k, msg, false)
+	if !ref.BIP340Verify(key.PublicKey().Bytes(), msg, odd) &&
+		bitcoin.VerifVerifySchnorrSelf(key.VerifSchnorrSigningScalar(), key.PublicKey().Bytes(), msg, odd) {
+		t.Fatalf("self-verification accepts %x for msg %x, which BIP-340 Verify refuses (R has odd y)", odd, msg)
+	}
 }
 
 // checkSigningScalar: the signing scalar is consistent with the even-y point.
